@@ -237,7 +237,20 @@ def check_arm(chain, st, ctx, bm, mr, case, kind):
     arm = bm["Arm"](tm(), S.copy(), tm(Mtip.copy()), q_pts.copy(), S[:3, :].copy())
     arm.setJointProperties(np.full(n, -2 * PI), np.full(n, 2 * PI))
     arm.setOrigins(link_homes_global=[tm(h.copy()) for h in homes])
-    arm.setMassProperties(np.array([g[3, 3] for g in Gl]), [tm(m.copy()) for m in Ml], Gl.copy())
+    masses = np.array([g[3, 3] for g in Gl])
+    pattern = case.get("setter_pattern", 0)
+    if pattern == 0:
+        arm.setMassProperties(masses, [tm(m.copy()) for m in Ml], Gl.copy())
+    elif pattern == 1:      # inertias given in a separate, later call
+        arm.setMassProperties(masses, [tm(m.copy()) for m in Ml])
+        arm.setMassProperties(box_spatial_links=Gl.copy())
+    elif pattern == 2:      # inertias first, frames later
+        arm.setMassProperties(box_spatial_links=Gl.copy())
+        arm.setMassProperties(link_masses=masses, mass_grav_centers=[tm(m.copy()) for m in Ml])
+    else:                   # a complete but different configuration first, then only what changes
+        arm.setMassProperties(masses * 2, [tm(m.copy()) for m in Ml], Gl.copy() * 3.0)
+        arm.setMassProperties(link_masses=masses, box_spatial_links=Gl.copy())
+    ctx.cls("setter_pattern:%d" % pattern)
     q, qd, qdd = (np.array(st[k], dtype=float) for k in ("q", "qd", "qdd"))
     g = np.array(st["g"], dtype=float)
     F = np.array(st["F"], dtype=float)
@@ -323,7 +336,7 @@ def run_shard(spec, ctx):
         else:
             chain, kind = gen_chain(rng), "random"
         st = gen_state(rng, chain["n"])
-        case = {"chain": chain, "state": st, "kind": kind, "traj": bool(k < ntraj and chain["physical"])}
+        case = {"chain": chain, "state": st, "kind": kind, "traj": bool(k < ntraj and chain["physical"]), "setter_pattern": int(rng.integers(4))}
         if k < ntraj and not chain["physical"]:
             chain = gen_chain(rng, int(rng.integers(1, 5)), True)
             st = gen_state(rng, chain["n"])
